@@ -20,6 +20,7 @@ import (
 	"time"
 
 	"github.com/attestantio/dirk/util/loggers"
+	"github.com/attestantio/dirk/util/verifhook"
 	badger "github.com/dgraph-io/badger/v2"
 	"github.com/dgraph-io/badger/v2/options"
 	"github.com/opentracing/opentracing-go"
@@ -129,6 +130,11 @@ func (s *Store) FetchAll(_ context.Context) (map[[49]byte][]byte, error) {
 func (s *Store) Fetch(ctx context.Context, key []byte) ([]byte, error) {
 	span, _ := opentracing.StartSpanFromContext(ctx, "storage.Fetch")
 	defer span.Finish()
+	if err := verifhook.Point(ctx, "store.fetch", key); err != nil {
+		return nil, err
+	}
+	//nolint:errcheck
+	defer verifhook.Point(ctx, "store.fetch.exit")
 
 	if len(key) == 0 {
 		return nil, errors.New("no key provided")
@@ -165,6 +171,11 @@ func (s *Store) Fetch(ctx context.Context, key []byte) ([]byte, error) {
 func (s *Store) BatchStore(ctx context.Context, keys [][]byte, values [][]byte) error {
 	span, _ := opentracing.StartSpanFromContext(ctx, "storage.BatchStore")
 	defer span.Finish()
+	if err := verifhook.Point(ctx, "store.batchstore", keys, values); err != nil {
+		return err
+	}
+	//nolint:errcheck
+	defer verifhook.Point(ctx, "store.batchstore.exit")
 
 	if len(keys) == 0 {
 		return errors.New("no keys provided")
@@ -197,6 +208,11 @@ func (s *Store) BatchStore(ctx context.Context, keys [][]byte, values [][]byte) 
 func (s *Store) Store(ctx context.Context, key []byte, value []byte) error {
 	span, _ := opentracing.StartSpanFromContext(ctx, "storage.Store")
 	defer span.Finish()
+	if err := verifhook.Point(ctx, "store.store", key, value); err != nil {
+		return err
+	}
+	//nolint:errcheck
+	defer verifhook.Point(ctx, "store.store.exit")
 
 	if len(key) == 0 {
 		return errors.New("no key provided")
